@@ -55,15 +55,19 @@ def backbone(bases, phipsi):
     return out
 
 
-def peptide(seq, rng, conf=None, hydrogens="none", cterm_oxt=True, nterm_amide=False):
+def peptide(seq, rng, conf=None, hydrogens="none", cterm_oxt=True, nterm_amide=False, phipsi=None):
     """seq: list of input residue names (may be variants like ASH, HID).  Returns list of residue dicts.
 
     hydrogens: none | all | side (template side-chain + HA hydrogens) | some (random subset)
     """
     bases = [topo.base_of(n) for n in seq]
-    if conf is None:
+    if phipsi is not None:
+        pass          # explicit backbone torsions (one (phi, psi) pair per residue)
+    elif conf is None:
         conf = rng.choice(["beta", "ppii", "ext", "mixed"])
-    if conf == "mixed":
+    if phipsi is not None:
+        pass
+    elif conf == "mixed":
         phipsi = []
         for _ in seq:
             p = CONF[rng.choice(["beta", "ppii", "ext", "beta"])]
